@@ -88,6 +88,12 @@ func checkC11(c C11Case) *Failure {
 		lr = c.LR
 	}
 	opt := optimizers.NewSGD(conf)
+	// one activation object and one loss object for the whole history, as in a training loop
+	actForward, err := c.Act.layer()
+	if err != nil {
+		return nil
+	}
+	compute := newLoss(c.Loss)
 	stale := false // a reset was omitted: the parameters are spent
 	multiBatch, steps, sawStale := false, 0, false
 	for si, st := range c.Steps {
@@ -138,7 +144,7 @@ func checkC11(c C11Case) *Failure {
 		if err != nil {
 			return failf("step %d: FC.Forward failed: %v", si, err)
 		}
-		a, err := c.Act.forward(y)
+		a, err := actForward(y)
 		if err != nil {
 			return failf("step %d: %s.Forward failed: %v", si, c.Act.Kind, err)
 		}
@@ -150,7 +156,7 @@ func checkC11(c C11Case) *Failure {
 				return failf("step %d: Reshape failed: %v", si, err)
 			}
 		}
-		l, err := computeLoss(c.Loss, a, lib.MustNew(tshape, st.T, false))
+		l, err := compute(a, lib.MustNew(tshape, st.T, false))
 		if err != nil {
 			return failf("step %d: %s.Compute failed: %v", si, c.Loss, err)
 		}
